@@ -5,7 +5,10 @@ Import ListNotations.
 Open Scope N_scope.
 
 Record case := mkCase {
-  k_cfg : cfg; k_labels : list label;
+  k_cfg : cfg;
+  k_subs : list N;              (* server-side subscriptions returned by OnConnecting *)
+  k_labels : list label;
+  o_connect : list out; o_snap0 : snap;   (* observed at connect *)
   o_steps : list (list out); o_snaps : list snap
 }.
 
@@ -20,11 +23,15 @@ Fixpoint trace_eqb (t : list (list out * st)) (os : list (list out)) (sns : list
   end.
 
 Definition corr (c : case) : bool :=
-  match trace (k_cfg c) init (k_labels c) with
+  let '(s0, o0) := start (k_cfg c) (k_subs c) in
+  outs_eqb o0 (o_connect c) && snap_eqb (snap_of s0) (o_snap0 c) &&
+  match trace (k_cfg c) s0 (k_labels c) with
   | None => false
   | Some t => trace_eqb t (o_steps c) (o_snaps c)
   end.
 
-Definition oracle (c : case) : bool := steps_spec (k_cfg c) snap0 (k_labels c) (o_steps c) (o_snaps c).
+Definition oracle (c : case) : bool :=
+  connect_spec (k_cfg c) (k_subs c) (o_connect c) (o_snap0 c) &&
+  steps_spec (k_cfg c) (o_snap0 c) (k_labels c) (o_steps c) (o_snaps c).
 
 Definition run (cs : list case) := failing corr oracle cs.
